@@ -26,6 +26,11 @@ vars == <<pick, case>>
 \* injective for i < 211; signed, so that some windows hold only negative values
 Distinct(seed, i) == ((i * (7 + 6 * (seed % 3))) % 211) - 105
 
+\* values that REPEAT across windows but never inside one: periodic with the kernel's period in both directions, so every
+\* kh x kw block of consecutive cells (every window, whatever the stride) holds each residue class exactly once
+Repeating(c, seed, ch, i, j) == Distinct(seed, ((i - 1) % c.kh) * c.kw + ((j - 1) % c.kw) + 1 + ch)
+RepeatStyle(c, seed) == (c.h + c.w + c.kh + seed) % 2 = 0
+
 Hash(c) == c.h*3 + c.w*5 + c.kh*7 + c.kw*11 + c.sh*13 + c.sw*17 + c.ph*19 + c.pw*23 + c.dh*29 + c.dw*31
            + c.c*37 + c.f*41 + (IF c.act = "relu" THEN 43 ELSE 0)
 Keep(c) == Hash(c) % Stride = Pick % Stride
@@ -78,7 +83,8 @@ Params(c, seed) ==
 Input(c, seed) ==
   IF c.kind = "dense" THEN [j \in 1..c.c |-> Val(seed + 1, j)]
   ELSE [ch \in 1..c.c |-> [i \in 1..c.h |-> [j \in 1..c.w |->
-          IF c.kind = "pool" THEN Distinct(seed, ((ch - 1)*c.h + (i - 1))*c.w + j)
+          IF c.kind = "pool" THEN (IF RepeatStyle(c, seed) THEN Repeating(c, seed, ch, i, j)
+                                   ELSE Distinct(seed, ((ch - 1)*c.h + (i - 1))*c.w + j))
                              ELSE Val(seed + 1, (ch*13 + i)*17 + j)]]]
 \* upstream gradient; zero where a ReLU pre-activation sits exactly on the kink (C01 quantifies away from kinks)
 Upstream(c, seed, pre) ==
